@@ -192,15 +192,15 @@ bool StepScript(InterpreterEnv& env)
             if (env.scriptIn != env.script && !env.scriptIn.IsPushOnly())
                 return set_error(serror, SCRIPT_ERR_SIG_PUSHONLY);
 
+            // The saved stack is empty when the session started on a P2SH-shaped script without stack
+            // arguments and the hash preimage was supplied later (exec): there is no redeem script to run.
+            if (env.p2shstack.empty())
+                return set_error(serror, SCRIPT_ERR_INVALID_STACK_OPERATION);
+
             // Restore stack.
             is_p2sh = false;
             stack = env.p2shstack;
             // swap(stack, stackCopy);
-
-            // stack cannot be empty here, because if it was the
-            // P2SH  HASH <> EQUAL  scriptPubKey would be evaluated with
-            // an empty stack and the EvalScript above would return false.
-            assert(!stack.empty());
 
             const valtype& pubKeySerialized = stack.back();
             CScript pubKey2(pubKeySerialized.begin(), pubKeySerialized.end());
